@@ -578,6 +578,32 @@ fn pl(label: &str, disk: bool, evict: bool, cf: u64, pre: &[usize], buf: &[usize
         mid_evict: false, qkind: q.into(), ing2 }
 }
 
+fn kv<'a>(toks: &'a [&'a str], k: &str) -> &'a str {
+    toks.iter().find_map(|t| t.strip_prefix(k).and_then(|r| r.strip_prefix('='))).unwrap_or("_")
+}
+fn parse_sizes(s: &str) -> Vec<usize> { if s == "[]" || s == "_" { vec![] } else { s.split(',').filter_map(|x| x.parse().ok()).collect() } }
+
+/// `--replay <file>`: re-run the case whose model line a replay file of ./check carries.
+fn placement_from_line(line: &str) -> Option<Placement> {
+    let toks: Vec<&str> = line.split(' ').collect();
+    if toks.len() < 3 || (toks[0] != "place" && toks[0] != "hold") { return None; }
+    Some(Placement {
+        hold: toks[0] == "hold", label: toks[1].to_string(), disk: kv(&toks, "st") == "disk", evict: kv(&toks, "ev") == "1", restart: kv(&toks, "rs") == "1",
+        cf: kv(&toks, "cf").parse().unwrap_or(4), pre: parse_sizes(kv(&toks, "pre")), buf: parse_sizes(kv(&toks, "buf")), extra_in_buf: kv(&toks, "x") == "1",
+        two: kv(&toks, "two") == "1", mid_evict: kv(&toks, "mid") == "evict", qkind: kv(&toks, "q").to_string(), ing2: kv(&toks, "ing2").parse().ok(),
+    })
+}
+fn find_model_line(v: &serde_json::Value) -> Option<String> {
+    match v {
+        serde_json::Value::Object(m) => {
+            if let Some(serde_json::Value::String(s)) = m.get("model_line") { return Some(s.clone()); }
+            m.values().find_map(find_model_line)
+        }
+        serde_json::Value::Array(a) => a.iter().find_map(find_model_line),
+        _ => None,
+    }
+}
+
 /// Past failures (witnesses of fixed and open findings) — always run, first.
 fn corpus() -> Vec<Placement> {
     let mut v = vec![];
@@ -629,6 +655,21 @@ fn main() {
     let mut cases = Cases::create(&args.out);
     let t0 = Instant::now();
     let thorough = args.thorough();
+    if let Some(path) = &args.replay {
+        let line = std::fs::read_to_string(path).ok().and_then(|t| serde_json::from_str::<serde_json::Value>(&t).ok()).and_then(|v| find_model_line(&v)).unwrap_or_default();
+        match placement_from_line(&line) {
+            Some(p) => for _ in 0..3 { run_placement(&p, &mut cases, true); },
+            None => {
+                let toks: Vec<&str> = line.split(' ').collect();
+                if toks.first() == Some(&"stress") {
+                    let n = |k: &str| kv(&toks, k).parse::<usize>().unwrap_or(2);
+                    for i in 0..3 { run_stress(args.seed.wrapping_mul(1000).wrapping_add(i), n("th"), n("in"), n("qr"), 6000, kv(&toks, "st") == "disk", kv(&toks, "mode") == "rough", &mut cases); }
+                } else { eprintln!("[c10] no replayable model line in {:?}", path); }
+            }
+        }
+        cases.finish();
+        std::process::exit(0);
+    }
 
     // ---- placements
     let mut plan: Vec<Placement> = corpus();
@@ -700,7 +741,7 @@ fn main() {
         for (evict, restart, midev, q) in variants {
             if midev && upto == "flush:persist:after" { continue; }
             for (cf, pre) in [(1u64, vec![2usize]), (4u64, vec![2usize, 2, 2, 2])] {
-                if !thorough && pre.len() == 4 && !(upto == "done" && restart) { continue; }
+                if pre.len() == 4 && !(upto == "done" && (thorough || restart)) { continue; }
                 plan.push(Placement { hold: true, restart, mid_evict: midev, ..pl(upto, true, evict, cf, &pre, &[2], false, q, None) });
             }
         }
